@@ -31,7 +31,7 @@ TECHNIQUE = "property-based testing (Hypothesis): generated products/workplaces,
 LEVEL_TEXT = "Generated-input search with placement invariants at every step; nested products only on the restricted profile N; not a proof."
 LEVEL_NOTE = "Trusts the step observer and a harness subclass of BaseComponent that records set_placed_workplace calls (no change to pDESy)."
 
-CFG_F = gen.Cfg(warm_modes=["morph", "graft", "carry", "append", "nolog"], warm=3, facilities=True, max_tasks=7, min_comps=1, max_comps=5, min_wps=1, max_wps=4, max_time=[40], p_auto=6,
+CFG_F = gen.Cfg(warm_modes=["morph", "graft", "carry", "append", "nolog", "cutrerun"], warm=3, facilities=True, max_tasks=7, min_comps=1, max_comps=5, min_wps=1, max_wps=4, max_time=[40], p_auto=6,
                 work_pool=[0.0, 0.5, 1.0, 1.0, 2.0, 3.0], kinds=[0, 0, 0, 1, 2, 3])
 CFG_N = CFG_F.copy(nested="assembly", inputs=False)
 
